@@ -575,19 +575,28 @@ async def drive_stub(value):
 
 
 async def drive_raop(ops, streaming):
-    """Real FacadeAudio + real RaopAudio on a fake playback manager.
+    """Real FacadeAudio + real RaopAudio (+ real RaopStream.stream_file) on a fake playback manager.
     ops: list of ["set",hex] | ["up"] | ["down"] | ["read"] | ["report",hex] | ["pump"] | ["inject",hex]
+                | ["stream", hex|None]   a stream starts and ends; the receiver advertises that initialVolume
+    streaming: a stream client is present during the whole history (a stream is in progress)
     -> list (per op) of event lists; events are tuples of strings."""
     from pyatv.const import Protocol
     from pyatv.core import ProtocolStateDispatcher, StateMessage, UpdatedState
     from pyatv.core.facade import FacadeAudio
     from pyatv.core.protocol import MessageDispatcher
-    from pyatv.protocols.raop import RaopAudio
+    from pyatv.protocols import raop as raop_mod
+    from pyatv.protocols.raop import RaopAudio, RaopStream
 
     cur = []
     phase = {"p": "op"}
 
     class Context:
+        credentials = None
+        password = None
+        sample_rate = 44100
+        channels = 2
+        bytes_per_channel = 2
+
         def __init__(self):
             self._v = None
 
@@ -597,21 +606,69 @@ async def drive_raop(ops, streaming):
 
         @volume.setter
         def volume(self, v):
-            cur.append(("dev" if phase["p"] == "op" else "echo", fhex(v)))
+            cur.append(({"op": "dev", "pump": "echo", "stream": "adopt"}[phase["p"]], fhex(v)))
             self._v = v
 
     class FakeStream:
-        def __init__(self, context):
+        """Stands for StreamClient: set_volume stores what it sent; send_audio applies a deferred
+        level exactly like pyatv/protocols/raop/stream_client.py (`if volume:`)."""
+
+        def __init__(self, context, info=None):
             self.context = context
+            self.info = info or {}
+            self.listener = None
+
+        async def initialize(self, properties):
+            pass
 
         async def set_volume(self, v):     # does not suspend: the model treats one call as atomic
             cur.append(("dev", fhex(v)))
             self.context._v = v
 
+        async def send_audio(self, source, metadata=None, /, volume=None):
+            if volume:
+                from pyatv.protocols.airplay.utils import pct_to_dbfs
+                await self.set_volume(pct_to_dbfs(volume))
+
+        def stop(self):
+            pass
+
     class PM:
         def __init__(self):
             self.context = Context()
-            self.stream_client = FakeStream(self.context) if streaming else None
+            self.persistent = FakeStream(self.context) if streaming else None
+            self.stream_client = self.persistent
+            self.next_info = {}
+
+        def acquire(self):
+            pass
+
+        async def setup(self, service):
+            self.stream_client = FakeStream(self.context, self.next_info)
+            return self.stream_client, self.context
+
+        async def teardown(self):
+            self.stream_client = self.persistent
+
+    class FakeService:
+        properties = {}
+        password = None
+
+    class FakeCore:
+        service = FakeService()
+
+        def takeover(self, *interfaces):
+            return lambda: None
+
+    class FakeSource:
+        async def get_metadata(self):
+            return raop_mod.EMPTY_METADATA
+
+        async def close(self):
+            pass
+
+    async def fake_open_source(*a, **kw):
+        return FakeSource()
 
     loop = asyncio.get_event_loop()
 
@@ -627,6 +684,7 @@ async def drive_raop(ops, streaming):
     pm = PM()
     ra = RaopAudio(pm, ProtocolStateDispatcher(Protocol.RAOP, cd))
     fa.register(ra, Protocol.RAOP)
+    stream = RaopStream(FakeCore(), object(), ra, pm)
     real_set = ra.set_volume
 
     async def spy_set(level):
@@ -634,40 +692,71 @@ async def drive_raop(ops, streaming):
         await real_set(level)
 
     ra.set_volume = spy_set
+    saved = (raop_mod.open_source, raop_mod.extract_credentials)
+    raop_mod.open_source = fake_open_source
+    raop_mod.extract_credentials = lambda service: None
     out = []
-    for op in ops:
-        del cur[:]
-        phase["p"] = "op"
-        try:
-            if op[0] == "set":
-                await fa.set_volume(unhex(op[1]))
-            elif op[0] == "up":
-                await fa.volume_up()
-            elif op[0] == "down":
-                await fa.volume_down()
-            elif op[0] == "read":
-                cur.append(("ret", fhex(fa.volume)))
-            elif op[0] == "report":
-                cd.dispatch(UpdatedState.Volume, StateMessage(Protocol.Companion, UpdatedState.Volume, unhex(op[1])))
-            elif op[0] == "inject":
-                pm.context._v = unhex(op[1])
-            elif op[0] == "pump":
-                phase["p"] = "pump"
-                for _ in range(3):
-                    await asyncio.sleep(0)
-            else:
-                raise RuntimeError("bad op %r" % (op,))
-        except Exception as ex:  # noqa
-            cur.append(("exc", exn_name(ex)))
-        out.append(list(cur))
+    try:
+        for op in ops:
+            del cur[:]
+            phase["p"] = "op"
+            try:
+                if op[0] == "set":
+                    await fa.set_volume(unhex(op[1]))
+                elif op[0] == "up":
+                    await fa.volume_up()
+                elif op[0] == "down":
+                    await fa.volume_down()
+                elif op[0] == "read":
+                    cur.append(("ret", fhex(fa.volume)))
+                elif op[0] == "report":
+                    cd.dispatch(UpdatedState.Volume, StateMessage(Protocol.Companion, UpdatedState.Volume, unhex(op[1])))
+                elif op[0] == "inject":
+                    pm.context._v = unhex(op[1])
+                elif op[0] == "stream":
+                    phase["p"] = "stream"
+                    pm.next_info = {} if op[1] is None else {"initialVolume": unhex(op[1])}
+                    await stream.stream_file("verif.mp3")
+                elif op[0] == "pump":
+                    phase["p"] = "pump"
+                    for _ in range(3):
+                        await asyncio.sleep(0)
+                else:
+                    raise RuntimeError("bad op %r" % (op,))
+            except Exception as ex:  # noqa
+                cur.append(("exc", exn_name(ex)))
+            out.append(list(cur))
+    finally:
+        raop_mod.open_source, raop_mod.extract_credentials = saved
     del lst
     return out
 
 
+MY_UID = "verif-own-device"
+OTHER_UID = "verif-other-device"
+
+
+def _answers(op):
+    """Scripted device messages that follow a request: list of [who, f32hex], who in mine|other.
+    (a bare hex string is the own device's confirmation - format of the older corpus files)"""
+    a = op[-1] if op[0] in ("set", "up", "down") else None
+    if a is None:
+        return []
+    if isinstance(a, str):
+        return [["mine", a]]
+    return [list(x) for x in a]
+
+
 async def drive_mrp(vabs, vrel, ops):
-    """Real FacadeAudio + real MrpAudio on a fake MrpProtocol whose device answers as scripted.
-    ops: ["report", f32hex] | ["set", hex, answer|None] | ["up", answer|None] | ["down", answer|None] | ["read"]
-    -> (model_ops, events): model_ops has the reports as the resulting MrpAudio._volume."""
+    """Real FacadeAudio + real MrpAudio on a fake MrpProtocol whose device (a member of a speaker
+    group) answers as scripted.
+    ops: ["report", f32hex]            VolumeDidChange for this device, unsolicited
+         ["other", f32hex]             VolumeDidChange for ANOTHER output device of the group, unsolicited
+         ["set", hex, answers] | ["up", answers] | ["down", answers] | ["read"]
+         answers: None | f32hex | [[who, f32hex], ...] delivered in that order, 10 ms (virtual) apart,
+                  after the request has been sent
+    -> (model_ops, events, infos): model_ops has the reports as the resulting MrpAudio._volume; infos
+       (parallel) has, for set/up/down, what audio.volume gave the moment the call returned."""
     from pyatv.const import Protocol
     from pyatv.core import ProtocolStateDispatcher
     from pyatv.core.facade import FacadeAudio
@@ -676,28 +765,34 @@ async def drive_mrp(vabs, vrel, ops):
 
     cur = []
     loop = asyncio.get_event_loop()
-    pending = {"answer": None, "hid": 0, "tasks": []}
+    pending = {"answers": [], "hid": 0, "tasks": [], "sent": False, "mine": 0}
 
-    def vol_msg(dv):
+    def vol_msg(dv, uid=MY_UID):
         m = messages.create(protobuf.VOLUME_DID_CHANGE_MESSAGE)
-        m.inner().outputDeviceUID = "uid"
+        m.inner().outputDeviceUID = uid
         m.inner().volume = dv
         return m
+
+    def deliver(who, dv):
+        if who == "mine":
+            pending["mine"] += 1
+        pending["tasks"].append(asyncio.ensure_future(
+            ma._volume_did_change(vol_msg(dv, MY_UID if who == "mine" else OTHER_UID))))
 
     class FakeProtocol:
         def __init__(self):
             di = messages.create(protobuf.DEVICE_INFO_MESSAGE)
-            di.inner().deviceUID = "uid"
+            di.inner().deviceUID = MY_UID
             self.device_info = di
 
         def listen_to(self, t, f):
             pass
 
         def _answer(self):
-            if pending["answer"] is not None:
-                dv = pending["answer"]
-                pending["answer"] = None
-                loop.call_soon(lambda: pending["tasks"].append(asyncio.ensure_future(ma._volume_did_change(vol_msg(dv)))))
+            pending["sent"] = True
+            ans, pending["answers"] = pending["answers"], []
+            for i, (who, hx) in enumerate(ans):
+                loop.call_later(0.01 * (i + 1), deliver, who, unhex(hx))
 
         async def send(self, msg):
             if msg.type == protobuf.SEND_HID_EVENT_MESSAGE:
@@ -729,23 +824,31 @@ async def drive_mrp(vabs, vrel, ops):
         await real_set(level)
 
     ma.set_volume = spy_set
-    mops, out = [], []
+    mops, out, infos = [], [], []
 
     async def settle():
+        await asyncio.sleep(0.5)           # virtual time: every scripted message has been delivered
         for _ in range(4):
             await asyncio.sleep(0)
+
+    def vis(evs):
+        return [e for e in evs if e[0] not in ("push", "sent")]
 
     for op in ops:
         del cur[:]
         before = fhex(ma._volume)
+        info = None
         try:
-            if op[0] == "report":
-                await ma._volume_did_change(vol_msg(unhex(op[1])))
+            if op[0] in ("report", "other"):
+                await ma._volume_did_change(vol_msg(unhex(op[1]), MY_UID if op[0] == "report" else OTHER_UID))
                 await settle()
-                mops.append(["report", fhex(ma._volume)])
-                out.append([e for e in cur if e[0] not in ("push", "sent")])
+                mops.append([op[0], fhex(ma._volume) if op[0] == "report" else op[1]])
+                out.append(vis(cur))
+                infos.append(None)
                 continue
-            pending["answer"] = None if (op[0] == "read" or op[-1] is None) else unhex(op[-1])
+            pending["answers"] = _answers(op)
+            pending["sent"] = False
+            pending["mine"] = 0
             if op[0] == "set":
                 await asyncio.wait_for(fa.set_volume(unhex(op[1])), 60)
             elif op[0] == "up":
@@ -758,15 +861,23 @@ async def drive_mrp(vabs, vrel, ops):
                 raise RuntimeError("bad op %r" % (op,))
         except Exception as ex:  # noqa
             cur.append(("exc", exn_name(ex)))
-        pending["answer"] = None
+        if op[0] in ("set", "up", "down"):
+            info = {"before": before, "at_return": fhex(ma._volume), "request_sent": pending["sent"],
+                    "own_confirmations_seen": pending["mine"], "answers": _answers(op)}
+        pending["answers"] = []
+        evs_now = vis(cur)
         await settle()
+        if info is not None:
+            info["settled"] = fhex(ma._volume)
         mops.append([op[0]] + ([op[1]] if op[0] == "set" else []))
-        out.append([e for e in cur if e[0] not in ("push", "sent")])
+        out.append(evs_now)
+        infos.append(info)
         if fhex(ma._volume) != before:
             mops.append(["report", fhex(ma._volume)])
             out.append([])
+            infos.append(None)
     del lst
-    return mops, out
+    return mops, out, infos
 
 
 # =========================================================================== the oracle
@@ -809,6 +920,7 @@ def judge_raop(ops, events):
     nan_state = False        # the context holds NaN because some side reported NaN as the level
     ctx_bad = False          # the context holds an injected device-side dBFS above 0
     expected = None          # level last set by the user and not touched since
+    user_changed = False     # the user changed the level (set / step went through) since the history began
     for op, evs in zip(ops, events):
         kind = op[0]
         if kind == "report":
@@ -830,7 +942,9 @@ def judge_raop(ops, events):
         dv = [unhex(e[1]) for e in evs if e[0] == "dev"]
         ex = [e[1] for e in evs if e[0] == "exc"]
         rt = [unhex(e[1]) for e in evs if e[0] == "ret"]
-        area = {"set": "write", "read": "read", "up": "step", "down": "step"}[kind]
+        ad = [unhex(e[1]) for e in evs if e[0] == "adopt"]
+        area = {"set": "write", "read": "read", "up": "step", "down": "step", "stream": "stream"}[kind]
+        what = {"up": "volume_up", "down": "volume_down", "stream": "stream start"}.get(kind, kind)
         poisoned = nan_state or ctx_bad
         for e in ex:
             if e != "ProtocolError":
@@ -840,10 +954,11 @@ def judge_raop(ops, events):
                 if kind == "set":
                     errs.append(("C20:write:out-of-range-forwarded", "set_volume(%s) handed %r to RaopAudio.set_volume" % (op[1], g)))
                 elif g != g and nan_state:
+                    # same defect whichever internal caller re-sends the stored level (steps, stream start)
                     errs.append(("C20:step:raop:nan-report-forwarded",
-                                 "volume_%s after a NaN level report handed NaN to RaopAudio.set_volume and on to the device" % kind))
+                                 "%s after a NaN level report handed NaN to RaopAudio.set_volume and on to the device" % what))
                 else:
-                    errs.append(("C20:step:leaves-range", "volume_%s handed %r to RaopAudio.set_volume" % (kind, g)))
+                    errs.append(("C20:%s:leaves-range" % area, "%s handed %r to RaopAudio.set_volume" % (what, g)))
         for d in dv:
             if not dbfs_ok(d) and not (d != d and nan_state):
                 errs.append(("C20:%s:dbfs-out-of-range" % area, "%s sent %r dBFS to the device" % (kind, d)))
@@ -865,6 +980,21 @@ def judge_raop(ops, events):
             expected = None
             if "ProtocolError" in ex and not poisoned:
                 errs.append(("C20:step:in-range-rejected", "volume_%s raised ProtocolError from a valid state" % kind))
+        elif kind == "stream":
+            # "the user changed the level prior to streaming" => the level survives the start of the
+            # stream: it is neither replaced by the receiver's initial level nor withheld from the receiver
+            if "ProtocolError" in ex and not poisoned:
+                errs.append(("C20:stream:in-range-rejected", "stream start raised ProtocolError from a valid state"))
+            if ad and user_changed:
+                errs.append(("C20:stream:user-level-overridden",
+                             "the user had set the level%s; stream start replaced it by the receiver's initialVolume %r dBFS"
+                             % ("" if expected is None else " to %r" % expected, ad[-1])))
+            if expected is not None and not ex and not any(abs(g - expected) <= TINY for g in fw if g == g):
+                errs.append(("C20:stream:user-level-not-applied",
+                             "the user had set the level to %r; stream start handed %r to RaopAudio.set_volume" % (expected, fw)))
+            if ad:
+                nan_state = ad[-1] != ad[-1]
+                ctx_bad = ad[-1] == ad[-1] and ad[-1] > 0.0
         elif kind == "read":
             if "ProtocolError" in ex and not poisoned:
                 errs.append(("C20:read:in-range-rejected", "audio.volume raised ProtocolError in a valid state"))
@@ -879,17 +1009,25 @@ def judge_raop(ops, events):
         if dv:
             nan_state = dv[-1] != dv[-1]
             ctx_bad = False
+        if kind in ("set", "up", "down") and fw and not ex:
+            user_changed = True
     return errs
 
 
-def judge_mrp(mops, events):
+MRP_QUANT = 0.051     # MrpAudio keeps one decimal of the float32 level the device confirms
+
+
+def judge_mrp(mops, events, infos=None, vabs=True):
     errs = []
     vol = 0.0
-    for op, evs in zip(mops, events):
+    infos = infos or [None] * len(mops)
+    for op, evs, info in zip(mops, events, infos):
         kind = op[0]
         if kind == "report":
             vol = unhex(op[1])
             continue
+        if kind == "other":
+            continue           # another output device: must not show anywhere (read-backs below would tell)
         fw = [unhex(e[1]) for e in evs if e[0] == "fwd"]
         ex = [e[1] for e in evs if e[0] == "exc"]
         rt = [unhex(e[1]) for e in evs if e[0] == "ret"]
@@ -926,6 +1064,24 @@ def judge_mrp(mops, events):
         else:
             if "ProtocolError" in ex:
                 errs.append(("C20:step:in-range-rejected", "volume_%s raised ProtocolError" % kind))
+        # set a level / step, read it back: the moment the call returns, audio.volume is the level this
+        # device confirmed - not an older one, and not the level of another member of the group
+        if info is not None and vabs and not ex and info["request_sent"]:
+            mine = [unhex(a[1]) for a in info["answers"] if a[0] == "mine"]
+            at_ret, settled, pre = unhex(info["at_return"]), unhex(info["settled"]), unhex(info["before"])
+            target = fw[0] if len(fw) == 1 and in_range(fw[0]) else None     # level the protocol was asked for
+            obedient = (target is not None and len(mine) == 1 and mine[0] == mine[0]
+                        and abs(mine[0] * 100.0 - target) <= 1e-4)
+            if obedient and not (at_ret == at_ret and abs(at_ret - target) <= MRP_QUANT):
+                errs.append(("C20:roundtrip:deviation",
+                             "%s asked the device for %r and the device confirmed it, but when the call returned "
+                             "audio.volume was %r (level before the call %r, after all messages %r)"
+                             % (kind if kind == "set" else "volume_" + kind, target, at_ret, pre, settled)))
+            elif len(mine) == 1 and not same(at_ret, settled) and not (len(fw) == 1 and fw[0] == pre):
+                # (a request for the level the device already has is not waited for - MrpAudio.set_volume)
+                errs.append(("C20:roundtrip:stale-after-return",
+                             "%s returned with audio.volume %r before this device's confirmation was taken in (then %r)"
+                             % (kind if kind == "set" else "volume_" + kind, at_ret, settled)))
     return errs
 
 
@@ -1035,8 +1191,14 @@ def gen_raop_history(rng, hostile):
             ops.append(["read"])
         elif r < 0.90:
             ops.append(["pump"])
-        elif r < 0.96:
+        elif r < 0.95:
             ops.append(["report", fhex(pick_level(rng, hostile))])
+        elif r < 0.975:
+            if hostile and rng.random() < 0.5:
+                ops.append(["stream", fhex(rng.choice([1.0, 5e-324, NAN, INF, -INF, rng.uniform(-200, 50)]))])
+            else:
+                ops.append(["stream", rng.choice([None, None, fhex(-20.0), fhex(-144.0), fhex(0.0), fhex(-30.0),
+                                                  fhex(rng.uniform(-30.0, 0.0))])])
         else:
             if hostile:
                 d = rng.choice([1.0, 0.5, 5e-324, NAN, INF, -INF, -1e308, rng.uniform(-200, 50)])
@@ -1067,24 +1229,44 @@ def pick_devvol(rng, hostile):
     return f32(rng.uniform(0.0, 1.0))
 
 
+def group_answers(rng, own, hostile=False):
+    """The own device's confirmation `own` (f32 fraction), with level changes of OTHER members of the
+    speaker group arriving before and/or after it."""
+    out = []
+    for _ in range(rng.choice([0, 0, 1, 1, 2])):
+        out.append(["other", fhex(pick_devvol(rng, hostile))])
+    out.append(["mine", fhex(own)])
+    for _ in range(rng.choice([0, 0, 0, 1])):
+        out.append(["other", fhex(pick_devvol(rng, hostile))])
+    return out
+
+
 def gen_mrp_history(rng, hostile):
     n = rng.randint(1, 10)
     ops = []
     for _ in range(n):
         r = rng.random()
-        if r < 0.2:
+        if r < 0.15:
             ops.append(["report", fhex(pick_devvol(rng, hostile))])
-        elif r < 0.4:
+        elif r < 0.22:
+            ops.append(["other", fhex(pick_devvol(rng, hostile))])
+        elif r < 0.42:
             lv = pick_level(rng, hostile)
             ans = pick_devvol(rng, True) if (hostile and rng.random() < 0.5) else f32(lv / 100.0 if lv == lv else lv)
-            ops.append(["set", fhex(lv), fhex(ans)])
-        elif r < 0.6:
-            ops.append(["up", fhex(pick_devvol(rng, hostile))])
+            ops.append(["set", fhex(lv), group_answers(rng, ans, hostile)])
+        elif r < 0.61:
+            ops.append(["up", group_answers(rng, pick_devvol(rng, hostile), hostile)])
         elif r < 0.8:
-            ops.append(["down", fhex(pick_devvol(rng, hostile))])
+            ops.append(["down", group_answers(rng, pick_devvol(rng, hostile), hostile)])
         else:
             ops.append(["read"])
     return ops
+
+
+def boundary_levels():
+    """Levels at and next to the ends of the range (and a few interior ones) - used on EVERY path."""
+    return [0.0, -0.0, 5e-324, 1e-9, 0.1, 2.5, 4.999999999999999, 5.0, 33.0, 50.0, 95.0, 95.00000000000001,
+            99.9, 99.99999999999999, 100.0]
 
 
 # =========================================================================== Coq encoding
@@ -1111,6 +1293,8 @@ def cevent(e):
         return "(eDev %s)" % cfloat(unhex(e[1]))
     if k == "echo":
         return "(eEcho %s)" % cfloat(unhex(e[1]))
+    if k == "adopt":
+        return "(eAdopt %s)" % cfloat(unhex(e[1]))
     if k == "key":
         return "eKey"
     if k == "push":
@@ -1128,6 +1312,8 @@ def crop(op):
         return "(rReport %s)" % cfloat(unhex(op[1]))
     if k == "inject":
         return "(rInject %s)" % cfloat(unhex(op[1]))
+    if k == "stream":
+        return "(rStream None)" if op[1] is None else "(rStream (Some %s))" % cfloat(unhex(op[1]))
     return {"up": "rUp", "down": "rDown", "read": "rRead", "pump": "rPump"}[k]
 
 
@@ -1137,6 +1323,8 @@ def cmop(op):
         return "(mSet %s)" % cfloat(unhex(op[1]))
     if k == "report":
         return "(mReport %s)" % cfloat(unhex(op[1]))
+    if k == "other":
+        return "(mOther %s)" % cfloat(unhex(op[1]))
     return {"up": "mUp", "down": "mDown", "read": "mRead"}[k]
 
 
@@ -1206,13 +1394,14 @@ def run_case(case):
         return errs, [term], ("raop", json.dumps(ops), case.get("streaming", True)), nontriv, \
             {"kind": k, "ops": ops, "impl_events": ev}
     if k == "mrp":
-        mops, ev = vloop.run(drive_mrp, bool(case["abs"]), bool(case["rel"]), case["ops"])
-        errs = judge_mrp(mops, ev)
+        mops, ev, infos = vloop.run(drive_mrp, bool(case["abs"]), bool(case["rel"]), case["ops"])
+        errs = judge_mrp(mops, ev, infos, bool(case["abs"]))
         term = "CMrp %s %s %s %s %s" % (common.cbool(case["abs"]), common.cbool(case["rel"]), cfloat(0.0),
                                         common.clist([cmop(o) for o in mops]), cobs(ev))
         nontriv = any(e[0] in ("fwd", "ret", "key") for evs in ev for e in evs)
         return errs, [term], ("mrp", case["abs"], case["rel"], json.dumps(case["ops"])), nontriv, \
-            {"kind": k, "abs": case["abs"], "rel": case["rel"], "ops": case["ops"], "model_ops": mops, "impl_events": ev}
+            {"kind": k, "abs": case["abs"], "rel": case["rel"], "ops": case["ops"], "model_ops": mops, "impl_events": ev,
+             "at_return": [None if i is None else [i["before"], i["at_return"], i["settled"]] for i in infos]}
     raise ValueError("unknown case kind %r" % k)
 
 
@@ -1235,7 +1424,11 @@ def run(ctx):
                 "boundaries, log-uniform magnitudes, raw 64-bit patterns) through the real map_range / pct_to_dbfs / dbfs_to_pct, "
                 "the facade guards over a stub protocol and map_range on exact Fractions; (b) every volume_up/volume_down word "
                 "up to a fixed length from a grid of start levels on real FacadeAudio+RaopAudio and FacadeAudio+MrpAudio; "
-                "(c) seeded operation histories (set/up/down/read/report/pump/inject), a mostly-valid stream and a hostile stream. "
+                "(c) seeded operation histories (set/up/down/read/report/pump/inject/stream start; MRP in a speaker group "
+                "with level changes of other output devices interleaved with this device's confirmations), a mostly-valid "
+                "stream and a hostile stream; (d) set-then-read of the ends of the range and of samples on every path: RAOP idle, "
+                "during a stream, across a stream start with and without the receiver's initialVolume, MRP with foreign "
+                "confirmations before/after the own one. "
                 "non-trivial = the implementation produced a value / forwarded a level; distinct by canonical input")
     cases = []
 
@@ -1300,9 +1493,12 @@ def run(ctx):
                 continue
             ops = [["report", fhex(f32(st))]]
             cur = st
-            for o in w:
+            for j, o in enumerate(w):
                 cur = min(cur + 0.05, 1.0) if o == "up" else max(cur - 0.05, 0.0)
-                ops.append([o, fhex(f32(cur))])
+                ans = [["mine", fhex(f32(cur))]]
+                if (len(w) + j) % 2 == 0:      # another member of the speaker group reports first
+                    ans.insert(0, ["other", fhex(f32(0.77))])
+                ops.append([o, ans])
                 ops.append(["read"])
             add({"kind": "mrp", "abs": True, "rel": False, "ops": ops}, "steps")
     # (c) histories
@@ -1315,6 +1511,39 @@ def run(ctx):
     for v in uniq:
         if in_range(v) and rng.random() < (1.0 if ctx.thorough else 0.35):
             add({"kind": "raop", "ops": [["set", fhex(v)], ["read"], ["pump"], ["read"]], "streaming": rng.random() < 0.5}, "roundtrip")
+
+    # (d) set a level, read it back - the ends of the range (and samples) on EVERY protocol path:
+    #     RAOP idle / while a stream is in progress / across the start of a stream (receiver with and
+    #     without an initialVolume), MRP in a speaker group (other members' level changes before and after
+    #     this device's confirmation), each followed by reads, listener deliveries and steps
+    levels = boundary_levels() + [rng.uniform(0.0, 100.0) for _ in range(10 * scale)] \
+        + [round(rng.uniform(0.0, 100.0), 1) for _ in range(10 * scale)]
+    inits = [None, fhex(-20.0), fhex(-144.0), fhex(0.0)]
+    for n, lv in enumerate(levels):
+        h = fhex(lv)
+        for streaming in (False, True):
+            add({"kind": "raop", "ops": [["set", h], ["read"], ["pump"], ["read"], ["up"], ["read"], ["down"], ["read"]],
+                 "streaming": streaming}, "paths")
+            for init in inits:
+                add({"kind": "raop", "ops": [["set", h], ["stream", init], ["read"], ["pump"], ["read"]],
+                     "streaming": streaming}, "paths")
+            add({"kind": "raop", "ops": [["set", h], ["pump"], ["read"], ["stream", inits[1 + n % 3]], ["read"],
+                                         ["stream", None], ["read"], ["pump"], ["read"]], "streaming": streaming}, "paths")
+        own = fhex(f32(lv / 100.0))
+        for pre in (0.0, 0.5, 1.0):
+            for a, r in ((True, False), (True, True)):
+                add({"kind": "mrp", "abs": a, "rel": r, "ops": [
+                    ["report", fhex(f32(pre))],
+                    ["set", h, [["other", fhex(f32(0.77))], ["mine", own], ["other", fhex(f32(0.12))]]], ["read"],
+                    ["other", fhex(f32(0.31))], ["read"],
+                    ["set", h, [["mine", own]]], ["read"]]}, "paths")
+    # a stream starting when the user never touched the level / after steps only
+    for init in inits + [fhex(-10.0), fhex(-29.999999999999996)]:
+        for streaming in (False, True):
+            add({"kind": "raop", "ops": [["stream", init], ["read"], ["up"], ["read"], ["stream", init], ["read"]],
+                 "streaming": streaming}, "paths")
+            add({"kind": "raop", "ops": [["up"], ["stream", init], ["read"]], "streaming": streaming}, "paths")
+            add({"kind": "raop", "ops": [["read"], ["down"], ["pump"], ["stream", init], ["read"]], "streaming": streaming}, "paths")
 
     terms = []      # (term text, case)
     t0 = _t.time()
